@@ -72,3 +72,12 @@ func init() {
 			{Name: "history", Run: "^TestHistory$", Checks: [2]int{300, 4000}, Shards: [2]int{6, 16}},
 		}})
 }
+
+func init() {
+	reg(PropCfg{ID: "C10", Pkg: "c10", Level: "exploration",
+		Rule: "owned cancel schedule: the harness context's Done() is the poll; for each program (endless loops, counting/printing loops, calls, deep recursion, throw/catch cycles, code inside handlers, sleeps, 1-6 spawned cores) and backend a dry run counts K polls, then cancellation is made visible at the k-th poll for EVERY k <= K when K <= 120 (quick) / 400 (thorough) and for a stratified sample otherwise, plus generated loop programs with random k; oracle: the wait returns (double-checked budget), outcome is a termination interrupt iff the k-th poll happened, polls/writes after the cancelling poll are bounded by the number of live cores, no cores/goroutines are left and the cores lock is free; non-trivial = 1 < k < K; distinct by (program, backend, k)",
+		Jobs: []Job{
+			{Name: "sweep", Run: "^TestTableSweep$", Shards: [2]int{8, 16}},
+			{Name: "random", Run: "^TestRandomPrograms$", Checks: [2]int{150, 3000}, Shards: [2]int{4, 16}},
+		}})
+}
